@@ -53,6 +53,8 @@ def run(chk, crate="rssl_hlsl", P="C01"):
     if P == "C01":
         rule_conv(chk, P)
         rule_folded_constants(chk)
+        import semmodel
+        semmodel.rule_hlsl(chk, "C01.semantic")
     rule_text(chk, P)
 
 
